@@ -147,6 +147,23 @@ def _mutable(x):
 # --------------------------------------------------------------------------------------
 # recorder
 # --------------------------------------------------------------------------------------
+_DIRTY = []
+
+
+def dirty_allocator():
+    """Allocation history as a dimension.  numpy keeps freed small buffers (< 1 KiB) in per-size LIFO free lists and hands the
+    most recently freed one to the next array of that size WITHOUT clearing it; what an application freed before a library call is
+    not the library's business.  Every 5th real call is preceded by the release of one garbage-filled buffer of every small size
+    (8 .. 1024 bytes): a work array allocated with numpy.empty and not completely written then carries the garbage into the result,
+    deterministically (fixed fill value), instead of the zeros a fresh process happens to provide."""
+    import numpy as np
+    if not _DIRTY:
+        _DIRTY.append([n for n in range(1, 129)])
+    for n in _DIRTY[0]:
+        a = np.full(n, 7.0e5)
+        del a
+
+
 class Recorder(object):
     def __init__(self, pid, findings=()):
         self.pid = pid
@@ -215,6 +232,8 @@ class Recorder(object):
         what they were (a library that hands out a shared work array or cached object is caught when the next call
         overwrites it)."""
         self.transitions += 1
+        if self.transitions % 5 == 0:
+            dirty_allocator()
         if not self.guard:
             try:
                 return 'ok', fn(*a, **kw)
